@@ -2087,7 +2087,28 @@ func ruleLB1() Rule {
 						return false
 					}
 					fo := core.StaticCallee(info, call)
-					return fo != nil && c.P.FuncOf(fo) == lb
+					if fo == nil {
+						return false
+					}
+					h := c.P.FuncOf(fo)
+					if h == lb {
+						return true
+					}
+					// a state helper that begins by skipping the linebreak (`if !l.linebreak() { return nil }`)
+					if h != nil && h.Body != nil && h.Decl != nil && len(h.Body.List) > 0 {
+						first := h.Body.List[0]
+						found := false
+						switch st := first.(type) {
+						case *ast.IfStmt:
+							if st.Init == nil {
+								found = c.callsFunc(h.Info(), st.Cond, lb)
+							}
+						case *ast.ExprStmt:
+							found = c.callsFunc(h.Info(), st.X, lb)
+						}
+						return found
+					}
+					return false
 				}
 				nsep := 0
 				f.OwnNodes(func(n ast.Node) bool {
@@ -2124,7 +2145,7 @@ func ruleLB1() Rule {
 						}
 						total++
 						key := f.Name + "|state handed over after a separator"
-						if seen[x] {
+						if seen[x] || isLB(ast.Unparen(x.Results[0])) {
 							rr.OK(f, key, x.Pos(), "linebreak", "no separator pending")
 						} else {
 							rr.Bad(f, key, x.Pos(), "the state is handed over after `;`/newline was emitted without skipping the linebreak that sequential_sep allows")
